@@ -111,8 +111,8 @@ claim('C16', 'GetTileIndex proved equal to the 32-column block-order formula and
 
 # ---- U-STR (C19 comparator, C01/C02 duplicate detection)
 TOLOWER_TRUST = 'tolower/toupper: C locale, key(c) = c+32 for A..Z, for every c in -128..255 (assumed contract, contracts/str.contracts)'
-G('str.IsEqual', ['C19', 'C01'], 'str', 'StringUtility_IsEqual', replace=['op2_tolower'], solver='cvc5', reach=NOEXC, timeout=900, trusted=[TOLOWER_TRUST], stage2='OP2_BOUNDED=4', replay={'driver': 'str_replay.cpp', 'case': 'cmp'})
-G('str.IsEqualCaseInsensitive', ['C19', 'C01', 'C02'], 'str', 'StringUtility_IsEqualCaseInsensitive', replace=['op2_tolower'], solver='cvc5', reach=NOEXC, timeout=600, trusted=[TOLOWER_TRUST], stage2='OP2_BOUNDED=4', replay={'driver': 'str_replay.cpp', 'case': 'cmp'})
+G('str.IsEqual', ['C19', 'C01'], 'str', 'StringUtility_IsEqual', replace=['op2_tolower', 'op2_toupper'], solver='cvc5', reach=NOEXC, timeout=900, trusted=[TOLOWER_TRUST], stage2='OP2_BOUNDED=4', replay={'driver': 'str_replay.cpp', 'case': 'cmp'})
+G('str.IsEqualCaseInsensitive', ['C19', 'C01', 'C02'], 'str', 'StringUtility_IsEqualCaseInsensitive', replace=['op2_tolower', 'op2_toupper'], solver='cvc5', reach=NOEXC, timeout=600, trusted=[TOLOWER_TRUST], stage2='OP2_BOUNDED=4', replay={'driver': 'str_replay.cpp', 'case': 'cmp'})
 G('str.ConvertToUpperInPlace', ['C19'], 'str', 'StringUtility_ConvertToUpperInPlace', replace=['op2_toupper'], reach=NOEXC, timeout=600, trusted=[TOLOWER_TRUST])
 
 CMP = ['StringUtility_IsEqualCaseInsensitive', 'StringUtility_IsEqual']
@@ -267,9 +267,10 @@ VOL_TRUST = ['std::vector<IndexEntry>::push_back, OpenAllInputFiles (stream j ha
              'format description carried by ghost arrays satisfying the layout recurrences (spec domain: <= 65536 members, sizes <= 2^40, name lengths <= 2^32)']
 G('volw.SectionHeader_ctor3', ['C02', 'C18', 'C01'], 'volw', 'VolSectionHeader_ctor3', reach=NOEXC, what='8 serialised bytes: tag, length in bits 0..30, padding flag in bit 31')
 G('volw.fileCount', ['C01'], 'volw', 'CreateVolumeInfo_fileCount', reach=NOEXC)
-G('volw.PrepareHeader', ['C20', 'C01', 'C02'], 'volw', 'VolFile_PrepareHeader', solver='cvc5', reach=EXC2, timeout=1200, flags=['--object-bits', '12'],
-  replace=['VolFile_OpenAllInputFiles', 'vec_VolIndexEntry_push_back', 'Rf_Length', 'CreateVolumeInfo_fileCount'], trusted=VOL_TRUST, replay={'driver': 'vol_replay.cpp', 'case': 'PrepareHeader'},
-  what='every size, name offset, table length and block offset equals the format description as a mathematical integer (so fits its field) or the call throws')
+G('volw.PrepareHeader.bounded', ['C20', 'C01', 'C02'], 'volw', None, harness='h_vol_prepare_bounded', defines=['OP2_VOLN=3'], loop_contracts=False, reach=EXC2,
+  flags=['--unwind', '6', '--unwinding-assertions', '--object-bits', '12'], timeout=900, replace=['Rf_Length', 'CreateVolumeInfo_fileCount'], bounded='member count n <= 3 (sizes and name lengths fully symbolic, 64-bit)',
+  trusted=VOL_TRUST, replay={'driver': 'vol_replay.cpp', 'case': 'PrepareHeader'},
+  what='bounded stand-in: PrepareHeader vs the format description in 128-bit arithmetic: refuses iff something does not fit, else every recorded value equals the description')
 
 # ---- U-CLM (C03, C05, C18, C20)
 def clm(fn, props, reach=NOEXC, replace=(), **kw):
@@ -305,8 +306,8 @@ G('arch.VerifySortedNoDuplicates', ['C01', 'C02', 'C03'], 'arch', 'ArchiveFile_V
 # ---- U-FILER (C05, C12, C13: FileReader over the assumed ifstream model)
 IFS = ['Ifs_read', 'Ifs_gcount', 'Ifs_tellg', 'Ifs_seekg', 'Ifs_seekg_end', 'Ifs_clear', 'Ifs_ok']
 IFS_TRUST = 'std::ifstream on a regular file: assumed model contracts/ifsmodel.h (failbit semantics of read past the end, tellg = -1 while failed, seekg past the end allowed)'
-for fn_, rc_ in (('ReadImplementation', EXC2), ('ReadPartial', NOEXC), ('Length', NOEXC), ('Position', NOEXC), ('Seek', NOEXC), ('SeekForward', EXC2), ('SeekBackward', EXC2)):
-    G('filer.' + fn_, ['C05', 'C12', 'C13'], 'filer', 'FileReader_' + fn_, replace=IFS + ['FileReader_Position'], reach=rc_, trusted=[IFS_TRUST], replay={'driver': 'filer_replay.cpp', 'case': fn_})
+for fn_, rc_ in (('ReadImplementation', EXC2), ('ReadPartial', NOEXC), ('Length', NOEXC), ('Position', NOEXC), ('Seek', NOEXC), ('SeekForward', EXC2), ('SeekBackward', EXC2), ('Slice1', EXC2)):
+    G('filer.' + fn_, ['C05', 'C12', 'C13'], 'filer', 'FileReader_' + fn_, replace=IFS + ['FileReader_Position', 'FileReader_SeekForward', 'FileReader_Slice2'], reach=rc_, trusted=[IFS_TRUST], replay={'driver': 'filer_replay.cpp', 'case': fn_})
 
 # ---- U-VOLR (C05, C02, C13, C17)
 KF = ['Fr_Read', 'Fr_Length', 'Fr_Position', 'Fr_Seek', 'Fr_SeekForward', 'Fr_Slice2', 'Fr_Slice1']
@@ -327,3 +328,21 @@ NOT_DECIDED.update({
  'C05': ['ClmFile reader side, ReadAllWaveHeaders, ReadStringTable content, ExtractFile bodies, resource exhaustion'],
  'C17': ['PathsAreEqual case/"./" folding (std::filesystem)', 'ResourceManager::GetResourceStream precedence, listings, regex and extension matching, archive discovery'],
 })
+
+# ---- U-MAPIO (C06, C07, C20)
+MAPIO_TRUST = ['vector resize, size-prefixed container reads and ReadTilesetSources as abstract contracts that keep the stream a K_R stream (contracts/mapio.contracts)', KR_TRUST]
+MAPIO_R = RD + ['vec_Tile_resize', 'vec_u32_resize', 'Map_ReadTilesetSources', 'Reader_ReadSized_u32_vec_TileMapping', 'Reader_ReadSized_u32_vec_TerrainType', 'Reader_ReadSized_u32_str',
+                'Map_CheckMinVersionTag', 'MapHeader_WidthInTiles', 'MapHeader_TileCount', 'MapHeader_ctor', 'Map_ctor', 'IsPowerOf2', 'Log2OfPowerOf2', 'Wr_Write']
+def mapio(fn, props, reach=EXC2, replace=(), **kw):
+    G('mapio.' + fn, props, 'mapio', 'Map_' + fn, replace=MAPIO_R + list(replace), reach=reach, trusted=MAPIO_TRUST, **kw)
+mapio('SkipSaveGameHeader', ['C07']); mapio('ReadMapBeginning', ['C07', 'C06'], replace=['Map_ReadTilesetHeader'], timeout=900, flags=['--object-bits', '12'])
+mapio('ReadTilesetHeader', ['C07', 'C06']); mapio('ReadVersionTag', ['C07', 'C06']); mapio('ReadTileGroup', ['C07', 'C06'], flags=['--object-bits', '12'])
+mapio('GetWidthInTilesLog2', ['C06', 'C20']); mapio('CreateHeader', ['C06', 'C20'], replace=['Map_GetWidthInTilesLog2']); mapio('WriteContainerSize', ['C20', 'C06'])
+
+G('volw.WriteHeaderFiles.bounded', ['C02', 'C01', 'C18'], 'volw', None, harness='h_vol_write_bounded', defines=['OP2_VOLN=2'], loop_contracts=False, reach=['two members'],
+  flags=['--unwind', '50', '--unwinding-assertions', '--object-bits', '12'], timeout=1200, replace=['Rf_Length', 'CreateVolumeInfo_fileCount', 'VolSectionHeader_ctor3'], force_replace=['VolSectionHeader_ctor3'],
+  bounded='<= 2 members, names <= 3 characters, payloads <= 6 bytes (all symbolic)', trusted=VOL_TRUST,
+  what='bounded stand-in: bytes written by PrepareHeader+WriteHeader+WriteFiles equal an independent encoder of the VOL description, byte for byte')
+
+sprh('ArtFile_WriteFrame', ['C10', 'C20'], reach=EXC2, replace=['Wr_Write'], trusted=[WR_TRUST], what='all flag combinations x all 7-bit counts: framing, first bytes, refusal of count != |layers|')
+sprh('ArtFile_ReadFrame', ['C10', 'C11', 'C18'], reach=EXC2, replace=RD + ['vec_Layer_resize'], trusted=[KR_TRUST], what='consumes exactly the grammar; absent optional bytes are 0; |layers| == count')
